@@ -206,6 +206,83 @@ RankFromBCOnly ==
     Valid(c) => LET D == DOp(c)
                 IN (IF Len(D) = 0 THEN 0 ELSE Rank(MR(D))) = Dim(c) - (IF c.bc \in {"periodic", "neumann"} THEN 1 ELSE 0)
 
+\* ---- Reassign part: ONE prior object, its parameters replaced through the public attributes -----------------------
+\* (configurations DiffOps.reassign.*.cfg: INIT RePriorInit, NEXT RePriorNext.)  The priors evaluate the SHIFTED variable
+\* x - location through D and normalise with the CURRENT precision / scale: the quantities below are functions of the current
+\* parameters of the object, whatever was evaluated before an assignment.
+\*   state  c = a configuration k  @@  [re |-> [fam, li, pi, tli, tpi, done, cached]]
+\*            li, pi    indices of the location pattern / of the precision (GMRF) or scale (LMRF, CMRF) the object is built with
+\*            tli, tpi  the second parameter set;  done: units assigned so far, in order (1 = location / mean, 2 = precision / scale)
+\*            cached    <<>> or <<<<li, pi>>>>: the parameters from which the object last derived anything it keeps
+\*   RePriorEvaluate / RePriorAssign(u) as in Families.tla (an assignment drops what was derived from the old parameters).
+\* RePriorFresh: in every reachable state the facts the object answers with are those of its current parameters.
+\* Named deviation (NEXT RePriorNextStale, cfg/DiffOps.dev_reassign_stale.cfg): an assignment keeps what was derived - refuted.
+RePriorFams == {"GMRF", "LMRF", "CMRF"}
+RePriorCfgOk(fam, k) ==
+    /\ Valid(k) /\ Dim(k) >= 2
+    /\ IF fam = "GMRF" THEN (k.bc \in BCs2 \/ (k.bc = "none" /\ k.order = 1))        \* `none`, order 1 = the GMRF of order 0
+       ELSE (k.bc \in BCs2 /\ k.order = 1)
+RePriorLoc(k, i) ==
+    CASE i = 1 -> [j \in 1..Dim(k) |-> ((j * j) % 5) - 2]
+      [] i = 2 -> [j \in 1..Dim(k) |-> ((3 * j) % 7) - 3]
+      [] OTHER -> [j \in 1..Dim(k) |-> 2]                         \* constant: also passed as a scalar
+RePriorPar(i) == CASE i = 1 -> <<1, 1>> [] i = 2 -> <<4, 1>> [] OTHER -> <<1, 4>>      \* precision / scale as <<numerator, denominator>>
+RePriorX(k)   == [j \in 1..Dim(k) |-> ((j * j * j) % 7) - 3]
+RePriorNext3(i) == (i % 3) + 1
+\* the facts: shifted variable through D, its square norm = (x - loc)' P (x - loc), and the precision / scale
+RePriorFacts(k, D, li, pi) ==
+    LET r  == F([j \in 1..Dim(k) |-> RePriorX(k)[j] - RePriorLoc(k, li)[j]])
+        Dr == IF Len(D) = 0 THEN <<>> ELSE IMV(D, r)
+    IN [loc |-> RePriorLoc(k, li), locconst |-> (li = 3), par |-> RePriorPar(pi), Dr |-> Dr, quad |-> IDot(Dr, Dr)]
+
+RePriorBase(s) == [pd |-> s.pd, n |-> s.n, bc |-> s.bc, order |-> s.order, wm |-> s.wm]
+RePriorDoneSet(s) == {s.re.done[j] : j \in 1..Len(s.re.done)}
+RePriorIdxAfter(s, n) ==
+    LET ds == {s.re.done[j] : j \in 1..n}
+    IN <<IF 1 \in ds THEN s.re.tli ELSE s.re.li, IF 2 \in ds THEN s.re.tpi ELSE s.re.pi>>
+RePriorCur(s) == RePriorIdxAfter(s, Len(s.re.done))
+
+RePriorInit ==
+    c \in { k @@ [re |-> [fam |-> f, li |-> i, pi |-> i, tli |-> RePriorNext3(i), tpi |-> RePriorNext3(i), done |-> <<>>, cached |-> <<>>]] :
+              k \in Configs, f \in RePriorFams, i \in 1..3 } 
+RePriorInitOk == RePriorCfgOk(c.re.fam, RePriorBase(c))            \* state constraint: the other initial states are not explored
+RePriorEvaluate ==
+    /\ c.re.cached = <<>>
+    /\ c' = [c EXCEPT !.re.cached = <<RePriorCur(c)>>]
+RePriorAssign(u) ==
+    /\ u \notin RePriorDoneSet(c)
+    /\ c' = [c EXCEPT !.re.done = Append(@, u), !.re.cached = <<>>]
+RePriorAssignStale(u) ==
+    /\ u \notin RePriorDoneSet(c)
+    /\ c' = [c EXCEPT !.re.done = Append(@, u)]
+RePriorNext      == RePriorEvaluate \/ \E u \in 1..2 : RePriorAssign(u)
+RePriorNextStale == RePriorEvaluate \/ \E u \in 1..2 : RePriorAssignStale(u)
+
+RePriorFresh ==
+    RePriorInitOk =>
+      LET cur == RePriorCur(c)
+      IN (c.re.cached # <<>> /\ c.re.cached[1] # cur) =>
+           LET D == DOp(RePriorBase(c))
+           IN RePriorFacts(RePriorBase(c), D, c.re.cached[1][1], c.re.cached[1][2]) = RePriorFacts(RePriorBase(c), D, cur[1], cur[2])
+\* non-vacuity of the pairs: the second parameter set changes the facts
+RePriorDiffers ==
+    (RePriorInitOk /\ Len(c.re.done) = 2) =>
+      LET D == DOp(RePriorBase(c)) k == RePriorBase(c)
+      IN RePriorFacts(k, D, c.re.li, c.re.pi).par # RePriorFacts(k, D, c.re.tli, c.re.tpi).par
+         /\ RePriorFacts(k, D, c.re.li, c.re.pi).loc # RePriorFacts(k, D, c.re.tli, c.re.tpi).loc
+
+RePriorEmit ==
+    (Emit /\ RePriorInitOk /\ Len(c.re.done) = 2 /\ c.re.cached = <<>>) =>
+      LET k == RePriorBase(c)
+          D == DOp(k)
+          P == IF Len(D) = 0 THEN [i \in 1..Dim(k) |-> [j \in 1..Dim(k) |-> 0]] ELSE IMM(IT(D), D)
+      IN PrintT("@@CASE " \o ToJson(
+           [kind |-> "reassign", fam |-> c.re.fam, pd |-> k.pd, n |-> k.n, bc |-> k.bc, order |-> k.order, wm |-> k.wm,
+            D |-> D, P |-> P, rank |-> Dim(k) - Len(NullBasis(k)), x |-> RePriorX(k), units |-> c.re.done,
+            from |-> RePriorFacts(k, D, c.re.li, c.re.pi),
+            trail |-> [n \in 1..2 |-> [unit |-> c.re.done[n],
+                                        expect |-> RePriorFacts(k, D, RePriorIdxAfter(c, n)[1], RePriorIdxAfter(c, n)[2])]]]) \o " @@END")
+
 Init == c \in {k \in Configs : Valid(k)}
 Next == UNCHANGED c
 Spec == Init /\ [][Next]_c
